@@ -18,11 +18,12 @@ SEARCHERS = {
     "C07": {"file": "search/deflate.rs", "mode": "append", "target": "src/process.rs"},
     "C03": {"file": "search/deflate.rs", "mode": "append", "target": "src/process.rs", "env": {"VERIF_SEARCH": "c03"}},
     "C05": {"file": "search/deflate.rs", "mode": "append", "target": "src/process.rs", "env": {"VERIF_SEARCH": "c05"}},
+    "C04": {"file": "search/golden.rs", "mode": "integration", "env": {"VERIF_GOLDEN_FILE": os.path.join(VERIF, "golden", "golden.txt")}},
     "C02": {"file": "search/deflate.rs", "mode": "append", "target": "src/process.rs", "env": {"VERIF_SEARCH": "c02"}},
 }
 
 
-def run_search(prop, timeout=1500):
+def run_search(prop, timeout=1500, extra_env=None, want_output=False):
     sp = SEARCHERS.get(prop)
     if sp is None:
         return None
@@ -49,6 +50,7 @@ def run_search(prop, timeout=1500):
                 f.write("\n\n" + body + "\n")
             cmd = ["cargo", "test", "--release", "--offline", "--lib", "verif_search", "--", "--nocapture", "--test-threads", "1"]
         env = dict(os.environ, CARGO_NET_OFFLINE="true", RUST_BACKTRACE="0", **sp.get("env", {}))
+        env.update(extra_env or {})
         try:
             p = subprocess.run(cmd, cwd=d, capture_output=True, text=True, timeout=timeout, env=env)
             out = p.stdout + "\n" + p.stderr
@@ -61,6 +63,8 @@ def run_search(prop, timeout=1500):
         res = {"searcher": sp["file"], "cmd": " ".join(cmd), "env": sp.get("env", {}), "rc": rc, "wall_s": round(time.time() - t0, 1),
                "failing_input": found[0][:20000] if found else None, "completed": bool(done),
                "output_tail": out[-1500:] if (found or not done) else done[0]}
+        if want_output:
+            res["output"] = out
         return res
     finally:
         shutil.rmtree(d, ignore_errors=True)
